@@ -413,6 +413,49 @@ func c01units(tier string) []mc.Unit {
 				}
 			}
 		}
+		// the format's own keywords as the first word of a continuation line and as the last word of a full line, in a
+		// qualifier value, the DEFINITION and a COMMENT
+		for _, kw := range []string{"LOCUS", "DEFINITION", "ACCESSION", "VERSION", "KEYWORDS", "SOURCE", "ORGANISM", "REFERENCE", "AUTHORS", "TITLE", "JOURNAL", "PUBMED", "REMARK", "COMMENT", "FEATURES", "ORIGIN", "CONTIG", "DBLINK", "BASE COUNT", "source", "gene", "CDS", "//", "Location/Qualifiers"} {
+			for where := 0; where < 2; where++ {
+				if kw == "//" && where == 0 {
+					continue // no line other than a record terminator ends in "//" (the property's domain)
+				}
+				for field := 0; field < 3; field++ {
+					if field == 0 && where == 1 && strings.HasPrefix(kw, "/") {
+						continue // a qualifier continuation line that starts with '/' reads as a new qualifier in any reader
+					}
+					rec := base
+					var ok bool
+					var text string
+					w := " " + kw
+					if where == 1 {
+						w = kw + " "
+					}
+					switch field {
+					case 0:
+						text, ok = place(w, gbFieldWidth, len("/note=\""), where)
+						rec.feats = []gbFeat{{"misc_feature", "1..30", []gbQual{{key: "note", val: text}, {key: "gene", val: "after"}}}, {"gene", "31..40", []gbQual{{key: "gene", val: "second"}}}}
+					case 1:
+						text, ok = place(w, 68, 0, where)
+						rec.definition = text
+					case 2:
+						text, ok = place(w, 68, 0, where)
+						rec.extra = []gbExtra{{"COMMENT", text}}
+					}
+					if !ok {
+						continue
+					}
+					cas := fmt.Sprintf("keyword %q %s in %s: %q", kw, []string{"ending a full line", "starting a continuation line"}[where], []string{"a qualifier value", "the DEFINITION", "a COMMENT"}[field], text)
+					var got poly.Sequence
+					cnt++
+					if p := catch(func() { got = genbank.Parse([]byte(gbWrite(rec))) }); p != "" {
+						r.Failf("no-panic", cas, []string{"wrap-boundary"}, "a record", "panic: "+p)
+						continue
+					}
+					c1compare(rec, got, func(clause, exp, g string) { r.Failf(clause, cas, []string{"wrap-boundary"}, exp, g) })
+				}
+			}
+		}
 		// unbroken words of every length up to the width of the field, as the first word of a value and as a later word
 		// (a word that fills its line exactly leaves no blank on that line)
 		for L := 1; L <= 68; L++ {
